@@ -115,3 +115,37 @@ Proof. unfold doc_paras, place_paras. cbn [d_stories]. intros H.
   destruct (paras_place_block _ _ _ _ H') as [Ho|Hn]; [|now right]. left.
   apply in_flat_map. exists s. split; auto. apply in_flat_map. exists b. split; auto. Qed.
 Print Assumptions prune_place.
+
+(* ---------- where created paragraphs go: directly after the paragraph addressed, in its own container ---------- *)
+Lemma index_of_para_app pid q : p_id q = pid -> forall pre post i,
+  Forall (fun b => match b with BPara p => p_id p <> pid | _ => True end) pre ->
+  index_of_para pid (pre ++ BPara q :: post) i = Some (i + length pre).
+Proof. intros Hq. induction pre as [|b pre IH]; intros post i Hp; cbn [app index_of_para length].
+  - rewrite Hq, Nat.eqb_refl. f_equal. lia.
+  - inversion Hp as [|b0 l Hb Hl]; subst. destruct b as [p|t rows].
+    + destruct (Nat.eqb (p_id p) (p_id q)) eqn:E; [apply Nat.eqb_eq in E; contradiction|]. rewrite (IH post (S i) Hl). f_equal. lia.
+    + rewrite (IH post (S i) Hl). f_equal. lia. Qed.
+Lemma insert_at_app {A} (x : A) : forall pre k l, insert_at (length pre + k) x (pre ++ l) = pre ++ insert_at k x l.
+Proof. induction pre as [|y pre IH]; intros k l; [reflexivity|]. cbn [length app Nat.add insert_at]. now rewrite IH. Qed.
+Lemma insert_at_0 {A} (x : A) l : insert_at 0 x l = x :: l.
+Proof. destruct l; reflexivity. Qed.
+Lemma reassoc {A} (pre : list A) q d x post : (pre ++ q :: d) ++ x :: post = pre ++ q :: (d ++ [x]) ++ post.
+Proof. rewrite <- !app_assoc. cbn [app]. reflexivity. Qed.
+Lemma place_fold (q : block) : forall ps done pre post,
+  fold_left (fun acc ip => insert_at (length pre + 1 + fst ip) (BPara (snd ip)) acc) (combine (seq (length done) (length ps)) ps)
+            (pre ++ q :: map BPara done ++ post)
+  = pre ++ q :: map BPara (done ++ ps) ++ post.
+Proof. induction ps as [|p ps IH]; intros done pre post; cbn [length seq combine fold_left].
+  - now rewrite app_nil_r.
+  - cbn [fst snd].
+    replace (length pre + 1 + length done) with (length (pre ++ q :: map BPara done) + 0) by (rewrite app_length; cbn [length]; rewrite map_length; lia).
+    change (pre ++ q :: map BPara done ++ post) with (pre ++ (q :: map BPara done) ++ post). rewrite app_assoc.
+    rewrite insert_at_app, insert_at_0. rewrite reassoc.
+    replace (S (length done)) with (length (done ++ [p])) by (rewrite app_length; cbn [length]; lia).
+    change [BPara p] with (map BPara [p]). rewrite <- map_app.
+    rewrite (IH (done ++ [p]) pre post). now rewrite <- app_assoc. Qed.
+Theorem place_here_after pid q ps pre post : p_id q = pid ->
+  Forall (fun b => match b with BPara p => p_id p <> pid | _ => True end) pre ->
+  place_here pid (combine (seq 0 (length ps)) ps) (pre ++ BPara q :: post) = pre ++ BPara q :: map BPara ps ++ post.
+Proof. intros Hq Hp. unfold place_here. rewrite (index_of_para_app pid q Hq pre post 0 Hp). cbn [Nat.add].
+  exact (place_fold (BPara q) ps [] pre post). Qed.
